@@ -56,7 +56,7 @@ spartan_like = st.builds(lambda h, s1, p, s2, n, t: h + s1 + p + s2 + n + t,
                          st.sampled_from(["h", "gopher.example", "", "h\xe9", "GET", "h\tx"]),
                          st.sampled_from(SEPS), st.sampled_from(["/", "/x", "", "/a%20b", "/\xff", "HTTP/1.0"]),
                          st.sampled_from(SEPS),
-                         st.sampled_from(["0", "5", "007", "-1", "1.0", "", "x", "\xb2", "1 ", "٣".encode().decode("latin-1"), "HTTP/1.0", "+"]),
+                         st.sampled_from(["0", "5", "007", "-1", "1.0", "", "x", "\xb2", "1 ", "+5", "+0", "-0", "1_000", "0x10", "1e3", "\x0b0", "0\x0c", "٣".encode().decode("latin-1"), "HTTP/1.0", "+"]),
                          st.sampled_from(TERMS))
 gemini_like = st.builds(lambda pre, rest, t: pre + rest + t,
                         st.sampled_from(["gemini://", "gemini://", "Gemini://", " gemini://", "gemini:/", "gemini:", "/gemini://"]),
